@@ -60,8 +60,12 @@ pub fn args(a: &[Node<ast::Argument>]) -> String {
     list(a.iter(), |a| format!("P({},{})", s(&a.name), value(&a.value)))
 }
 
+pub fn dir(d: &ast::Directive) -> String {
+    format!("D({},{})", s(&d.name), args(&d.arguments))
+}
+
 pub fn dirs(d: &ast::DirectiveList) -> String {
-    list(d.iter(), |d| format!("D({},{})", s(&d.name), args(&d.arguments)))
+    list(d.iter(), |d| dir(d))
 }
 
 pub fn sels(l: &[ast::Selection]) -> String {
@@ -94,11 +98,11 @@ pub fn optype(o: ast::OperationType) -> &'static str {
     }
 }
 
-fn desc(d: &Option<Node<str>>) -> String {
+pub fn desc(d: &Option<Node<str>>) -> String {
     opt(d.as_ref(), |d| s(d))
 }
 
-fn iv(v: &ast::InputValueDefinition) -> String {
+pub fn iv(v: &ast::InputValueDefinition) -> String {
     format!(
         "Iv({},{},{},{},{})",
         desc(&v.description),
@@ -109,27 +113,31 @@ fn iv(v: &ast::InputValueDefinition) -> String {
     )
 }
 
-fn ivs(l: &[Node<ast::InputValueDefinition>]) -> String {
+pub fn ivs(l: &[Node<ast::InputValueDefinition>]) -> String {
     list(l.iter(), |v| iv(v))
 }
 
-fn fds(l: &[Node<ast::FieldDefinition>]) -> String {
-    list(l.iter(), |f| {
-        format!(
-            "Fd({},{},{},{},{})",
-            desc(&f.description),
-            s(&f.name),
-            ivs(&f.arguments),
-            ty(&f.ty),
-            dirs(&f.directives)
-        )
-    })
+pub fn fd(f: &ast::FieldDefinition) -> String {
+    format!(
+        "Fd({},{},{},{},{})",
+        desc(&f.description),
+        s(&f.name),
+        ivs(&f.arguments),
+        ty(&f.ty),
+        dirs(&f.directives)
+    )
 }
 
-fn evs(l: &[Node<ast::EnumValueDefinition>]) -> String {
-    list(l.iter(), |e| {
-        format!("Ev({},{},{})", desc(&e.description), s(&e.value), dirs(&e.directives))
-    })
+pub fn fds(l: &[Node<ast::FieldDefinition>]) -> String {
+    list(l.iter(), |f| fd(f))
+}
+
+pub fn ev(e: &ast::EnumValueDefinition) -> String {
+    format!("Ev({},{},{})", desc(&e.description), s(&e.value), dirs(&e.directives))
+}
+
+pub fn evs(l: &[Node<ast::EnumValueDefinition>]) -> String {
+    list(l.iter(), |e| ev(e))
 }
 
 fn roots(l: &[Node<(ast::OperationType, ast::NamedType)>]) -> String {
